@@ -1228,6 +1228,10 @@ func (r Reference) ObjValue() Object {
 	if v == r {
 		panic("Self reference")
 	}
+	if v == nil {
+		// the variable was deleted (del) after this reference was made: same as any undefined name (was a nil dereference).
+		return Error{Value: "identifier not found: " + r.Name}
+	}
 	return v
 }
 
